@@ -111,14 +111,22 @@ def tok_of_label(lab):
     return [k, s]
 
 
+def replay_lines(g):
+    """The generators print one bare string "REPLAY|<run id>|<space separated labels>" per case."""
+    for ln in g.lines:
+        ln = ln.strip()
+        if ln.startswith('"REPLAY|') and ln.endswith('"'):
+            yield ln[1:-1].split("|", 2)
+
+
 def gen_docs(c, runs, workers=8):
     """One TLC run of the generator for all runs of the tier: {run id: [token sequence]}."""
     cfg = c.path("Gen_Grammar.cfg")
     with open(cfg, "w") as f:
         f.write("CONSTANT Runs <- %s\nCONSTANT LRuns = {}\nINIT GInit\nNEXT GNext\nINVARIANT GEmit\n" % runs)
-    g = vlib.run_tlc("lex/Grammar.tla", cfg, workers=workers, timeout=6000, keep_lines=50, xmx="8g", metadir=c.path("tlc-G"))
+    g = vlib.run_tlc("lex/Grammar.tla", cfg, workers=workers, timeout=6000, keep_lines=10 ** 8, xmx="8g", metadir=c.path("tlc-G"))
     docs = {}
-    for t in g.tagged("REPLAY"):
+    for t in replay_lines(g):
         docs.setdefault(t[1], set()).add(tuple(t[2].split(" ")))
     out = {}
     for rid in WRAP:
@@ -135,11 +143,11 @@ def gen_texts(c, runs, workers=8):
     with open(cfg, "w") as f:
         f.write("CONSTANT LRuns <- %s\nINIT LInit\nNEXT LNext\nINVARIANT LEmit\nINVARIANT LTypeOK\nINVARIANT Conservation\n"
                 "INVARIANT TokensWellFormed\n" % runs)
-    g = vlib.run_tlc("lex/StringLitP.tla", cfg, workers=workers, timeout=6000, keep_lines=50, xmx="8g", metadir=c.path("tlc-L"))
+    g = vlib.run_tlc("lex/StringLitP.tla", cfg, workers=workers, timeout=6000, keep_lines=10 ** 8, xmx="8g", metadir=c.path("tlc-L"))
     if g.invariant_violated:
         raise vlib.ToolError("design-level failure in StringLitP.tla: %s" % g.invariant_violated)
     texts = {}
-    for t in g.tagged("REPLAY"):
+    for t in replay_lines(g):
         texts.setdefault(t[1], set()).add(tuple(t[2].split(" ")) if t[2] else ())
     return {k: sorted(v, key=lambda d: (len(d), d)) for k, v in texts.items()}, g
 
@@ -208,7 +216,7 @@ def body(c):
     from concurrent.futures import ThreadPoolExecutor
     with ThreadPoolExecutor(3) as ex:
         fm = ex.submit(mode_m)
-        fg = ex.submit(gen_docs, c, "RunsQuick" if q else "RunsThorough", 4)
+        fg = ex.submit(gen_docs, c, "RunsQuick" if q else "RunsThorough", 4 if q else 6)
         fl = ex.submit(gen_texts, c, "LRunsQuick" if q else "LRunsThorough", 2)
         m, (docs, g), (texts, gl) = fm.result(), fg.result(), fl.result()
     c.add_tlc("M Grammar (RunsM: executable <=6, type system <=5, variable definitions <=8, values <=4 tokens)", m)
@@ -278,12 +286,16 @@ def body(c):
     if len(obs) != len(cases):
         raise vlib.ToolError("harness answered %d of %d cases" % (len(obs), len(cases)))
     # ---------------- mode V ----------------
-    # TLC reads only what it judges (the full observation stays in trace.ndjson for the replay files)
-    vlib.write_ndjson(c.path("v.ndjson"), [{k: o[k] for k in ("id", "mode", "toks", "gaps", "text", "acc", "ast")} for o in obs])
-    v = vlib.run_tlc("lex/GrammarTrace.tla", "lex/GrammarTrace.cfg", env={"TRACE": c.path("v.ndjson")}, workers=8,
-                     timeout=6000, keep_lines=50, xmx="12g")
-    c.add_tlc("V GrammarTrace", v)
-    verdicts = {t[1]: (t[2], t[3]) for t in v.tagged("VERDICT")}
+    # TLC reads only what it judges (the full observation stays in trace.ndjson for the replay files); sliced to bound TLC's memory
+    verdicts = {}
+    slice_n = 150000
+    for k in range(0, len(obs), slice_n):
+        part = obs[k:k + slice_n]
+        vpath = c.path("v%d.ndjson" % (k // slice_n))
+        vlib.write_ndjson(vpath, [{f: o[f] for f in ("id", "mode", "toks", "gaps", "text", "acc", "ast")} for o in part])
+        v = vlib.run_tlc("lex/GrammarTrace.tla", "lex/GrammarTrace.cfg", env={"TRACE": vpath}, workers=8, timeout=6000, keep_lines=50, xmx="12g")
+        c.add_tlc("V GrammarTrace slice %d" % (k // slice_n), v)
+        verdicts.update({t[1]: (t[2], t[3]) for t in v.tagged("VERDICT")})
     if len(verdicts) != len(obs):
         raise vlib.ToolError("V produced %d verdicts for %d cases" % (len(verdicts), len(obs)))
     stats = {}
